@@ -108,6 +108,17 @@ package main
 //@   ghost put bool = false
 //@   ghost tok string = ""
 //@   calls PutBlock#1: set put = ($r1 == nil)
+//@   # what is hashed and stored is what was received: the whole body was read
+//@   # into the buffer (any read error, a short body included, ends the request
+//@   # - pooled buffers are not zeroed), the buffer has the declared length, and
+//@   # that buffer with the requested hash goes to PutBlock
+//@   ghost rderr error = nil
+//@   ghost rd bool = false
+//@   calls getBufferWithContext#1: requires $2 == int(req.ContentLength)
+//@   calls io.ReadFull#1: requires $0 == iface(req.Body) && $1 == buf
+//@   calls io.ReadFull#1: set rderr = $r1
+//@   calls io.ReadFull#1: set rd = true
+//@   calls PutBlock#1: requires rd && rderr == nil && $2 == buf && $3 == hash
 //@   calls GetAPIToken#1: requires $0 == req
 //@   calls GetAPIToken#1: set tok = $r
 //@   calls SignLocator#1: requires $0 == rtr.cluster && $2 == tok
@@ -250,6 +261,14 @@ package main
 // digits) with the requested prefix, with the size and mtime of that entry.
 //@ func UnixVolume.IndexTo property C02,C06 safety -bounds
 //@   calls fmt.Fprint#1: requires matches(name, `^[0-9a-f]{32}$`) && strings.HasPrefix(name, prefix)
+//@   # a listing is reported complete (nil) only if every block directory that
+//@   # was selected could be opened and read to its end - whatever the error was
+//@   ghost failed bool = false
+//@   calls osWithStats.Open#2: set failed = failed || $r1 != nil
+//@   calls os.File.Readdir#1: set failed = failed || ($r1 != nil && $r1 != io.EOF)
+//@   loop 1: invariant failed ==> lastErr != nil
+//@   loop 2: invariant failed ==> lastErr != nil
+//@   ensures result == nil ==> !failed
 
 // putWithPipe: when the wait ends because the context is done, the writer side
 // of the pipe is closed with the context's error (so that WriteBlock's reader
@@ -472,8 +491,14 @@ package main
 //@   calls PipeWriter.CloseWithError#1: requires $0 == rerr
 //@ func getWithPipe property C01,C02
 //@   ghost sel int = 0 - 1
+//@   ghost closedErr bool = false
 //@   at select#1: set sel = $index
-//@   ensures sel == 0 ==> result0 == 0
+//@   # when the caller's context ends first, the read side of the pipe is closed
+//@   # with an error before returning: the consumer goroutine (which writes into
+//@   # the caller's pooled buffer) and the volume reader are unblocked and stop
+//@   calls PipeReader.CloseWithError#1: requires sel == 0
+//@   calls PipeReader.CloseWithError#1: set closedErr = true
+//@   ensures sel == 0 ==> result0 == 0 && closedErr
 
 // The pattern GetAPIToken's contract relies on: after the scheme and the
 // white space the WHOLE rest of the header value is the token (no character
